@@ -7,7 +7,7 @@ import os
 from . import build, engine, run, checks, diff
 from .spec import Index, guard_atoms
 
-PUML_MACHINES = ['m15', 'm16']
+PUML_MACHINES = ['m15', 'm16', 'm18']
 PUML_CFGS = ['b', 'b11', 'mf']
 
 
@@ -195,9 +195,18 @@ def build_all(hs):
     return errs
 
 
+def puml_machines(tier, seed):
+    """curated M15 / M16 plus generated flat machines with guard trees from the documented guard grammar"""
+    out = list(PUML_MACHINES) + ['pgen:201', 'pgen:202']
+    if tier == 'thorough':
+        out += ['pgen:%d' % (2000 + (seed % 1000) * 20 + k) for k in range(10)]
+    return out
+
+
 def puml_machine_part(prop, tier, seed, ev, violations, known, known_hits):
     n = 60 if tier == 'quick' else 600
     problems = []
+    PUML_MACHINES = puml_machines(tier, seed)
     ph = {m: PumlHarness(m, PUML_CFGS) for m in PUML_MACHINES}
     fh = {m: engine.Harness(m, PUML_CFGS) for m in PUML_MACHINES}
     errs = build_all(list(ph.values())) + engine.build_harnesses(list(fh.values()))
@@ -263,4 +272,5 @@ def replay(d, path):
 
 
 def setup():
-    return build_all([PumlHarness(m, PUML_CFGS) for m in PUML_MACHINES]) + engine.build_harnesses([engine.Harness(m, PUML_CFGS) for m in PUML_MACHINES])
+    ms = puml_machines('quick', 1)
+    return build_all([PumlHarness(m, PUML_CFGS) for m in ms]) + engine.build_harnesses([engine.Harness(m, PUML_CFGS) for m in ms])
